@@ -314,8 +314,8 @@ func init() {
 		},
 		Rule:     "boundary-biased generated values (0, 1, 2^31, 2^32-1, 2^63-1, 2^63, 2^64-1, random; empty / 1-byte / 70 KB byte strings; 0-9 nodes per configuration; every result and error kind) for every codec: log entry, the five requests and responses, Node, Config, snapshot label, Info, Replication, admin task responses (results, NotLeaderError with hint and lost flag, InProgressError by kind, every exported sentinel / not-ready error by equality); decode(encode(x) ++ tail) must return x and leave exactly tail, and every proper prefix (all of the first 48 bytes, 24 random cuts, the last 12) must fail; plus SetIdentity + New and granted vote + restart for 64-bit values incl. >= 2^63; a value is non-trivial if it is not the all-zero value; distinct = distinct encoding, counted per worker run (runs use different seeds)",
 		MinQuick: 50000, MinThorough: 1000000,
-		Counters:    []string{"bursts-cut-in-the-middle"},
-		Prefixes:    []string{"op:codec:", "op:truncated"},
+		Counters:    []string{"bursts-cut-in-the-middle", "remote-status-reports-with-followers"},
+		Prefixes:    []string{"op:codec:", "op:truncated", "remote-status-reports:"},
 		Assumptions: []string{"exported wrappers in verif_codec_on.go call the unexported codec functions without altering values", "pipelined stream framing is additionally exercised end to end by the live-cluster and wire-level engines"},
 	}
 
@@ -384,6 +384,9 @@ func init() {
 	addPlan("C03", planEntry{Engine: "B", Scenario: "universe", Params: "steps=600", Quick: 20, Thorough: 1000})
 	addPlan("C12", planEntry{Engine: "B", Scenario: "universe", Params: "steps=600,seg=1024", Quick: 20, Thorough: 1000})
 	addPlan("C18", planEntry{Engine: "B", Scenario: "framing", Params: "steps=500", Quick: 24, Thorough: 1000})
+	// status reports through the remote client, compared with in-process ones
+	addPlan("C18", planEntry{Engine: "A", Scenario: "member", Quick: 6, Thorough: 60})
+	addPlan("C18", planEntry{Engine: "A", Scenario: "general", Quick: 4, Thorough: 40})
 	addPlan("C10", planEntry{Engine: "B", Scenario: "crashenum", Params: "steps=110,passes=90", Quick: 5, Thorough: 60, Watchdog: 300e9})
 	for i := 0; i < 8; i++ {
 		addPlan("C05", planEntry{Engine: "B", Scenario: "votegrid", Params: fmt.Sprintf("shard=%d,shards=8", i), Quick: 1, Thorough: 3, Watchdog: 300e9})
